@@ -146,12 +146,17 @@ int __wrap_open(const char *path, int flags, ...) {
   return __real_open(path, flags, mode);
 }
 
+static long fstat_shrink = 0; /* > 0: st_size is capped to this value - the file "grew" after it was stat'ed */
+
 int __wrap_fstat(int fd, struct stat *st) {
   if (hit(S_FSTAT)) {
     errno = EIO;
     return -1;
   }
-  return __real_fstat(fd, st);
+  int r = __real_fstat(fd, st);
+  if (r == 0 && wrap_in_api && fstat_shrink > 0 && st->st_size > fstat_shrink)
+    st->st_size = fstat_shrink;
+  return r;
 }
 
 FILE *__wrap_fopen(const char *path, const char *mode) {
@@ -190,6 +195,7 @@ void wrap_cmd(const char *sub, const char *a, const char *b) {
     memset(fail_at, 0, sizeof fail_at);
     memset(injected, 0, sizeof injected);
     moves = growths = guarded_maps = 0;
+    fstat_shrink = 0;
   } else if (!strcmp(sub, "fail")) {
     for (int s = 0; s < S_N; s++)
       if (!strcmp(a, SYM[s]))
@@ -198,6 +204,8 @@ void wrap_cmd(const char *sub, const char *a, const char *b) {
     force_move = atoi(a);
   } else if (!strcmp(sub, "guardfiles")) {
     guard_files = atoi(a);
+  } else if (!strcmp(sub, "fstatshrink")) {
+    fstat_shrink = atol(a);
   }
 }
 
